@@ -189,7 +189,8 @@ def static_objects(repo, scratch):
     Returns (sorted names of (a) without the `.N` suffix, sorted names of (b)) or None when it does not compile."""
     import subprocess
     obj = os.path.join(scratch, "pcp_server_nm.o")
-    p = subprocess.run(["gcc", "-c", "-w", "-O0", "-DHAVE_CONFIG_H", "-I" + repo, "-I" + repo + "/src/pdsh",
+    # -fno-pie: constant tables of pointers stay in .rodata (with PIE they move to .data.rel.ro and would look writable)
+    p = subprocess.run(["gcc", "-c", "-w", "-O0", "-fno-pie", "-fno-pic", "-DHAVE_CONFIG_H", "-I" + repo, "-I" + repo + "/src/pdsh",
                         "-I" + repo + "/src/common", os.path.join(repo, "src/pdsh/pcp_server.c"), "-o", obj],
                        stdout=subprocess.PIPE, stderr=subprocess.PIPE)
     if p.returncode != 0:
